@@ -37,6 +37,88 @@ class Module:
                         self.funcs[node.name + '.' + sub.name] = sub
 
 
+def local_binding_order(fn):
+    """Non-parameter local names of a function in order of first binding (source order), nested scopes excluded."""
+    ps = set(a.arg for a in fn.args.posonlyargs + fn.args.args + fn.args.kwonlyargs)
+    if fn.args.vararg:
+        ps.add(fn.args.vararg.arg)
+    if fn.args.kwarg:
+        ps.add(fn.args.kwarg.arg)
+    found = []
+    for n in walk_local(fn):
+        if isinstance(n, ast.Name) and isinstance(n.ctx, ast.Store) and n.id not in ps:
+            found.append((n.lineno, n.col_offset, n.id))
+        elif isinstance(n, ast.ExceptHandler) and n.name and n.name not in ps:
+            found.append((n.lineno, n.col_offset, n.name))
+    order = []
+    for _, _, name in sorted(found):
+        if name not in order:
+            order.append(name)
+    return order
+
+
+class _Renamer(ast.NodeTransformer):
+    def __init__(self, mapping):
+        self.m = mapping
+
+    def visit_Name(self, n):
+        if n.id in self.m:
+            n.id = self.m[n.id]
+        return n
+
+    def visit_ExceptHandler(self, n):
+        if n.name in self.m:
+            n.name = self.m[n.name]
+        self.generic_visit(n)
+        return n
+
+    def visit_FunctionDef(self, n):
+        return n      # nested scopes untouched
+
+    visit_AsyncFunctionDef = visit_Lambda = visit_ClassDef = visit_FunctionDef
+
+
+_REFNAMES = None
+
+
+def refnames():
+    global _REFNAMES
+    if _REFNAMES is None:
+        import json
+        p = os.path.join(os.path.dirname(os.path.abspath(__file__)), 'refnames.json')
+        try:
+            with open(p) as f:
+                _REFNAMES = json.load(f)
+        except OSError:
+            _REFNAMES = {}
+    return _REFNAMES
+
+
+def normalise_local_names(rel, module):
+    """Rename local variables back to the reference names (same number of locals, same binding order): a pure renaming
+    of locals is invisible to the rules.  Parameters, attributes and globals are never renamed."""
+    ref = refnames()
+    renamed = {}
+    for lname, fn in module.funcs.items():
+        want = ref.get(rel + '::' + lname)
+        if not want:
+            continue
+        cur = local_binding_order(fn)
+        if cur == want or len(cur) != len(want):
+            continue
+        mapping = {c: w for c, w in zip(cur, want) if c != w}
+        if not mapping:
+            continue
+        # no capture: a target name must not already be used in the function for something else
+        used = {n.id for n in walk_local(fn) if isinstance(n, ast.Name)} | {a.arg for a in fn.args.args}
+        if any(w in used and w not in cur for w in mapping.values()):
+            continue
+        r = _Renamer(mapping)
+        fn.body = [r.visit(st) for st in fn.body]
+        renamed[lname] = mapping
+    return renamed
+
+
 class Repo:
     def __init__(self, root='/repo', overlay=None):
         self.root = root
@@ -67,6 +149,11 @@ class Repo:
                 src = src[1:]
             try:
                 self.modules[rel] = Module(rel, src)
+                if os.environ.get('SA_NO_RENAME') != '1':
+                    rn = normalise_local_names(rel, self.modules[rel])
+                    if rn:
+                        self.renamed = getattr(self, 'renamed', {})
+                        self.renamed[rel] = rn
             except SyntaxError as e:
                 self.errors.append('%s: %s' % (rel, e))
         self._fi = {}
